@@ -170,7 +170,8 @@ PROPS = {
     "C07": dict(
         level="other",
         lemmas=[],
-        functions=[M_SI + "_anonymize_value", M_SI + "_check_sensitive_item_format", M_SI + "_extract_enclosing_text"],
+        functions=[M_SI + "_anonymize_value", M_SI + "_check_sensitive_item_format", M_SI + "_extract_enclosing_text",
+                   M_SI + "replace_matching_item"],
         standins=[("rt_files", "C07")],
         design_ref="7/C07",
         technique="contracts on _anonymize_value/_check_sensitive_item_format/_extract_enclosing_text discharged by the "
@@ -186,7 +187,7 @@ PROPS = {
     "C08": dict(
         level="other",
         lemmas=[],
-        functions=[M_SI + "_anonymize_value", M_SI + "_extract_enclosing_text"],
+        functions=[M_SI + "_anonymize_value", M_SI + "_extract_enclosing_text", M_SI + "replace_matching_item"],
         standins=[("rt_files", "C08")],
         design_ref="7/C08",
         technique="lookup contract of _anonymize_value (hit returns the stored replacement, entries never change, "
@@ -262,7 +263,7 @@ PROPS = {
         level="other",
         lemmas=[],
         functions=[M_AF + "FileAnonymizer.anonymize_io", M_SI + "_split_line", M_SI + "_extract_enclosing_text",
-                   M_SI + "SensitiveWordAnonymizer.anonymize"],
+                   M_SI + "SensitiveWordAnonymizer.anonymize", M_SI + "replace_matching_item"],
         standins=[("rt_files", "C12")],
         design_ref="7/C12",
         technique="loop invariant + ghost call trace on anonymize_io (one write per input line, in order, each the "
@@ -282,7 +283,7 @@ PROPS = {
                    M_IP + "IpV6Anonymizer.__init__", M_SI + "_anonymize_value", M_SI + "_check_sensitive_item_format",
                    M_SI + "_extract_enclosing_text", M_SI + "AsNumberAnonymizer._generate_as_number_replacement",
                    M_JS + "juniper_nonrandom_encrypt", M_JS + "_gap_encode", M_AF + "FileAnonymizer.__init__",
-                   M_AF + "FileAnonymizer.anonymize_io", M_SI + "SensitiveWordAnonymizer.__init__", M_SI + "SensitiveWordAnonymizer._generate_sensitive_word_regex", M_SI + "SensitiveWordAnonymizer._get_or_generate_sensitive_word_replacement", M_SI + "AsNumberAnonymizer.__init__"],
+                   M_AF + "FileAnonymizer.anonymize_io", M_SI + "replace_matching_item", M_SI + "SensitiveWordAnonymizer.__init__", M_SI + "SensitiveWordAnonymizer._generate_sensitive_word_regex", M_SI + "SensitiveWordAnonymizer._get_or_generate_sensitive_word_replacement", M_SI + "AsNumberAnonymizer.__init__"],
         only=["#deterministic", "#frame", "post.2", "post.1"],
         standins=[("rt_files", "C13")],
         design_ref="7/C13",
@@ -306,7 +307,7 @@ PROPS = {
                    M_SI + "_anonymize_value", M_SI + "_extract_enclosing_text", M_SI + "_check_sensitive_item_format",
                    M_SI + "_split_line", M_SI + "AsNumberAnonymizer._generate_as_number_replacement",
                    M_JS + "juniper_nonrandom_encrypt", M_JS + "_gap_encode", M_JS + "_gap", M_JS + "_fixedc",
-                   M_AF + "FileAnonymizer.anonymize_io", M_SI + "SensitiveWordAnonymizer.__init__", M_SI + "SensitiveWordAnonymizer._generate_conflicting_reserved_word_list", M_SI + "SensitiveWordAnonymizer._generate_sensitive_word_regex", M_SI + "SensitiveWordAnonymizer._get_or_generate_sensitive_word_replacement", M_SI + "SensitiveWordAnonymizer.anonymize", M_SI + "AsNumberAnonymizer.__init__", M_SI + "AsNumberAnonymizer.anonymize", M_SI + "anonymize_as_numbers"],
+                   M_AF + "FileAnonymizer.anonymize_io", M_SI + "replace_matching_item", M_SI + "SensitiveWordAnonymizer.__init__", M_SI + "SensitiveWordAnonymizer._generate_conflicting_reserved_word_list", M_SI + "SensitiveWordAnonymizer._generate_sensitive_word_regex", M_SI + "SensitiveWordAnonymizer._get_or_generate_sensitive_word_replacement", M_SI + "SensitiveWordAnonymizer.anonymize", M_SI + "AsNumberAnonymizer.__init__", M_SI + "AsNumberAnonymizer.anonymize", M_SI + "anonymize_as_numbers"],
         generators=[_ro.gen_juniper_valid],
         only=["#safe", "#raises", "#call", "decreases", "returns_a_value", "#enc", "#unroll", "juniper.VALID#"],
         standins=[("rt_files", "C14")],
